@@ -1089,7 +1089,9 @@ fn parsing_canonical_form(schema: &JsonValue, defined_names: &mut HashSet<String
         JsonValue::Object(map) => pcf_map(map, defined_names),
         JsonValue::String(s) => pcf_string(s),
         JsonValue::Array(v) => pcf_array(v, defined_names),
-        json => panic!("got invalid JSON value for canonical form of schema: {json}"),
+        // A custom attribute can have the name of a schema attribute (e.g. `"order": true` or
+        // `"items": 5` on a record) and any JSON value, keep it as it is
+        json => json.to_string(),
     }
 }
 
@@ -1146,9 +1148,13 @@ fn pcf_map(schema: &Map<String, JsonValue>, defined_names: &mut HashSet<String>)
 
         // Strip off quotes surrounding "size" type, if they exist ([INTEGERS] rule).
         if k == "size" || k == "precision" || k == "scale" {
+            // Integers that don't fit an i64 (a fixed can be larger) and values that are not
+            // integers at all (custom attributes named like this) are kept as they are
             let i = match v.as_str() {
-                Some(s) => s.parse::<i64>().expect("Only valid schemas are accepted!"),
-                None => v.as_i64().unwrap(),
+                Some(s) => s
+                    .parse::<i64>()
+                    .map_or_else(|_| v.to_string(), |i| i.to_string()),
+                None => v.as_i64().map_or_else(|| v.to_string(), |i| i.to_string()),
             };
             fields.push((k, format!("{}:{}", pcf_string(k), i)));
             continue;
